@@ -140,11 +140,15 @@ class PITFrozenDilationMasker(PITDilationMasker):
             rf,
             trainable=False,
         )
-        self.gamma.requires_grad = False
+        # a frozen mask can never be trained: keep it as a buffer (same name, same state_dict
+        # key) rather than as a parameter, so that no optimizer or train_*() call can reach it
+        gamma = self.gamma.detach()
+        del self.gamma
+        self.register_buffer('gamma', gamma)
 
     @property
     def trainable(self) -> bool:
-        return self.gamma.requires_grad
+        return False
 
     @trainable.setter
     def trainable(self, value: bool):
